@@ -1,5 +1,5 @@
 import Driver.Loop
-import DastardV.Model.C09
+import DastardV.Model.C09Pipe
 open DastardV
 
-def main : IO Unit := driverMain C09.runLine
+def main : IO Unit := driverMain Pipe.runLineC09All
